@@ -35,6 +35,7 @@ uint64_t yield_site_calls(int site);
 // std::random_device, open*("/dev/*random") made by this thread between begin and end
 void watch_begin();
 uint64_t watch_end(std::string *what = nullptr);
+uint64_t watch_clock_reads();   // clock reads seen inside watch windows on this thread (reported, not judged)
 
 // in-process capture of process-terminating outcomes of an import (C18)
 enum Outcome { O_RETURNED = 0, O_ABORT, O_NULLDEREF, O_EXCEPTION, O_WILDSEGV };
